@@ -316,7 +316,7 @@ prop("C05", engine="e4", rule=(
               "thorough tier adds coverage-guided fuzzing (libFuzzer) of "
               "the same generator and oracle",
     quick=dict(cases=1500, size=60),
-    thorough=dict(cases=20000, size=100, env={"VERIF_E4_MAX_IDS": "400"},
+    thorough=dict(cases=2500, size=100, env={"VERIF_E4_MAX_IDS": "400"},
                   fuzz=dict(engine="e4f", workers=4, runs=15000)))
 prop("C06", engine="e1", rule=(
     "random registries x 2..5 random permutations of class-record, method "
